@@ -727,7 +727,7 @@ Section Memory.
   Proof.
     intros Sp In Hv i j s t Ne Hi Hj.
     destruct (lt_dec i (length env)) as [Li | Gi]; destruct (lt_dec j (length env)) as [Lj | Gj].
-    - rewrite nth_error_app1 in Hi, Hj by assumption. eapply Sp; eassumption.
+    - rewrite nth_error_app1 in Hi, Hj by assumption. eapply (Sp i j); eassumption.
     - rewrite nth_error_app1 in Hi by assumption. rewrite nth_error_app2 in Hj by lia.
       destruct (j - length env)%nat as [|k] eqn:Ek; [|destruct k; discriminate]. cbn in Hj. inversion Hj; subst.
       destruct (Hv t eq_refl) as (A & O). apply (sep_later f); [eapply In; exact Hi | exact A | exact O].
@@ -753,7 +753,8 @@ Section Memory.
       rewrite nth_error_set_nth_other in Hj by lia. apply Sh. eapply (Sp v j); eassumption.
     - rewrite nth_error_set_nth_same in Hj by exact Lv. inversion Hj; subst.
       rewrite nth_error_set_nth_other in Hi by lia. apply sep_sym, Sh. eapply (Sp v i); eauto.
-    - rewrite nth_error_set_nth_other in Hi, Hj by lia. eapply Sp; eassumption.
+    - rewrite (nth_error_set_nth_other (VRefs s') v i env) in Hi by lia.
+      rewrite (nth_error_set_nth_other (VRefs s') v j env) in Hj by lia. eapply (Sp i j); eassumption.
   Qed.
 
   (** an operation that yields a new variable and is not documented to modify anything *)
@@ -920,11 +921,342 @@ Section Memory.
         * intros i j a b Ne Hi Hj.
           assert (Ni : i <> v) by (intros ->; rewrite nth_error_set_nth_same in Hi by (apply nth_error_Some; congruence); discriminate).
           assert (Nj : j <> v) by (intros ->; rewrite nth_error_set_nth_same in Hj by (apply nth_error_Some; congruence); discriminate).
-          rewrite nth_error_set_nth_other in Hi, Hj by lia. eapply Sp; eassumption.
+          rewrite nth_error_set_nth_other in Hi, Hj by lia. eapply (Sp i j); eassumption.
       + constructor; cbn [st_m st_env m_r m_f]; try reflexivity.
         * exact K.
         * intros [=].
         * apply ext_refl.
         * intros u Nu _. apply nth_error_set_nth_other. cbn [target] in Nu. congruence.
   Qed.
+
+  (** ** What the other variables see *)
+
+  (** the same artifact, the same mapper, the same ranges ([sorts]: up to their order) *)
+  Definition upto (sorts : bool) (a b : ref) : Prop :=
+    rart a = rart b /\ rmap a = rmap b /\
+    if sorts then Permutation (rranges a) (rranges b) else rranges a = rranges b.
+
+  Lemma upto_refl b a : upto b a a.
+  Proof. repeat split. destruct b; reflexivity. Qed.
+  Lemma upto_weaken b x y : upto false x y -> upto b x y.
+  Proof. intros (A & M & R). repeat split; try assumption. destruct b; [rewrite R|]; auto. Qed.
+  Lemma upto_trans b x y z : upto b x y -> upto b y z -> upto b x z.
+  Proof.
+    intros (A1 & M1 & R1) (A2 & M2 & R2). repeat split; try congruence.
+    destruct b; [eapply perm_trans; eassumption | congruence].
+  Qed.
+  Lemma upto_false_eq x y : upto false x y -> x = y.
+  Proof. destruct x, y. cbn. intros (A & M & R). cbn in *. congruence. Qed.
+
+  Lemma Forall2_refl' {A} (R : A -> A -> Prop) : (forall x, R x x) -> forall l, Forall2 R l l.
+  Proof. intros H. induction l; constructor; auto. Qed.
+  Lemma Forall2_trans' {A} (R : A -> A -> Prop) : (forall x y z, R x y -> R y z -> R x z) ->
+    forall l1 l2 l3, Forall2 R l1 l2 -> Forall2 R l2 l3 -> Forall2 R l1 l3.
+  Proof.
+    intros H l1 l2 l3 F. revert l3. induction F; intros l3 G; inversion G; subst; constructor; eauto.
+  Qed.
+  Lemma Forall2_impl' {A} (R R' : A -> A -> Prop) : (forall x y, R x y -> R' x y) ->
+    forall l l', Forall2 R l l' -> Forall2 R' l l'.
+  Proof. intros H l l' F. induction F; constructor; auto. Qed.
+
+  Lemma hval_keeps h h' l : hok h0 W0 h l -> keeps h0 W0 h h' ->
+    Forall2 (upto true) (map (hval h) l) (map (hval h') l).
+  Proof.
+    intros F (_ & P). induction F as [|x t Hx Ht IH]; cbn [map]; constructor; [|exact IH].
+    repeat split. cbn [hval rranges]. apply P. exact Hx.
+  Qed.
+  Lemma hval_same h h' l : hok h0 W0 h l -> same h0 W0 h h' ->
+    Forall2 (upto false) (map (hval h) l) (map (hval h') l).
+  Proof.
+    intros F (_ & P). induction F as [|x t Hx Ht IH]; cbn [map]; constructor; [|exact IH].
+    repeat split. cbn [hval rranges]. symmetry. apply P. exact Hx.
+  Qed.
+
+  (** After an operation every References variable other than the one the
+      operation is documented to modify is the same slice and holds, position
+      by position, the same artifact, the same mapper and the same ranges -- in
+      the same order unless the operation is one of those that sort in place. *)
+  Theorem step_others st o st' r u s :
+    SInv st -> step st o = Some (st', r) -> target o <> Some u ->
+    nth_error (st_env st) u = Some (VRefs s) ->
+    nth_error (st_env st') u = Some (VRefs s) /\
+    Forall2 (upto (sorter o)) (lval (st_m st) s) (lval (st_m st') s).
+  Proof.
+    intros Hinv E T Hu. destruct (step_inv _ _ _ _ Hinv E) as (_ & [K S Xf Fr En]).
+    destruct Hinv as [X F Ev Sp].
+    assert (Lu : (u < length (st_env st))%nat) by (apply nth_error_Some; congruence).
+    split; [rewrite En by assumption; exact Hu|].
+    pose proof (env_vok _ _ _ _ Ev Hu) as Is. cbn [vok] in Is.
+    unfold lval. rewrite (Fr s Is).
+    - destruct (sorter o) eqn:So.
+      + apply hval_keeps; [apply fok_rd; exact F | exact K].
+      + apply hval_same; [apply fok_rd; exact F | apply S; reflexivity].
+    - intros v t Tv Gv. apply get_refs_nth in Gv. apply (Sp u v); [congruence | exact Hu | exact Gv].
+  Qed.
+
+  (** ... and a Ranges variable holds the same ranges (a permutation of them if
+      the operation sorts) *)
+  Theorem step_others_ranges st o st' r u s :
+    SInv st -> step st o = Some (st', r) -> target o <> Some u ->
+    nth_error (st_env st) u = Some (VRngs s) ->
+    nth_error (st_env st') u = Some (VRngs s) /\
+    if sorter o then Permutation (rd (m_r (st_m st)) s) (rd (m_r (st_m st')) s)
+    else rd (m_r (st_m st')) s = rd (m_r (st_m st)) s.
+  Proof.
+    intros Hinv E T Hu. destruct (step_inv _ _ _ _ Hinv E) as (_ & [K S Xf Fr En]).
+    destruct Hinv as [X F Ev Sp].
+    assert (Lu : (u < length (st_env st))%nat) by (apply nth_error_Some; congruence).
+    split; [rewrite En by assumption; exact Hu|].
+    pose proof (env_vok _ _ _ _ Ev Hu) as Is. cbn [vok] in Is.
+    destruct (sorter o); [apply K; exact Is | apply S; [reflexivity | exact Is]].
+  Qed.
+
+  (** *** sequences of operations *)
+
+  Definition targets (ops : list op) : list nat :=
+    flat_map (fun o => match target o with Some v => [v] | None => [] end) ops.
+
+  Theorem run_inv : forall ops st st', SInv st -> run st ops = Some st' -> SInv st'.
+  Proof.
+    induction ops as [|o t IH]; intros st st' Hinv E; cbn [run] in E.
+    - inversion E; subst. exact Hinv.
+    - destruct (step st o) as [[st1 r]|] eqn:E1; [|discriminate].
+      apply (IH st1); [apply (step_inv _ _ _ _ Hinv E1) | exact E].
+  Qed.
+
+  (** A variable that no operation of the sequence is documented to modify --
+      the receiver of a query, an argument, the result of an earlier operation --
+      holds at the end what it held at the start, up to the order of the ranges
+      inside each reference. *)
+  Theorem run_others : forall ops st st' u s,
+    SInv st -> run st ops = Some st' -> ~ In u (targets ops) ->
+    nth_error (st_env st) u = Some (VRefs s) ->
+    nth_error (st_env st') u = Some (VRefs s) /\
+    Forall2 (upto true) (lval (st_m st) s) (lval (st_m st') s).
+  Proof.
+    induction ops as [|o t IH]; intros st st' u s Hinv E N Hu; cbn [run] in E.
+    - inversion E; subst. split; [exact Hu | apply Forall2_refl'; apply upto_refl].
+    - destruct (step st o) as [[st1 r]|] eqn:E1; [|discriminate].
+      assert (T : target o <> Some u).
+      { intros T. apply N. unfold targets. cbn [flat_map]. rewrite T. left. reflexivity. }
+      destruct (step_others _ _ _ _ _ _ Hinv E1 T Hu) as (Hu1 & F1).
+      destruct (IH st1 st' u s (proj1 (step_inv _ _ _ _ Hinv E1)) E) as (Hu2 & F2); [|exact Hu1|].
+      + intros I. apply N. unfold targets in *. cbn [flat_map]. apply in_or_app. right. exact I.
+      + split; [exact Hu2|]. eapply Forall2_trans'; [apply upto_trans | | exact F2].
+        eapply Forall2_impl'; [|exact F1]. intros x y. destruct (sorter o); [auto | apply upto_weaken].
+  Qed.
+
+  (** If moreover no operation of the sequence sorts (copies, BySystemArtifact,
+      Ranges, Resolve of other lists), the variable holds exactly what it held. *)
+  Theorem run_others_exact : forall ops st st' u s,
+    SInv st -> run st ops = Some st' -> ~ In u (targets ops) -> forallb (fun o => negb (sorter o)) ops = true ->
+    nth_error (st_env st) u = Some (VRefs s) ->
+    nth_error (st_env st') u = Some (VRefs s) /\ lval (st_m st') s = lval (st_m st) s.
+  Proof.
+    induction ops as [|o t IH]; intros st st' u s Hinv E N Q Hu; cbn [run] in E.
+    - inversion E; subst. split; [exact Hu | reflexivity].
+    - destruct (step st o) as [[st1 r]|] eqn:E1; [|discriminate].
+      cbn [forallb] in Q. apply andb_prop in Q. destruct Q as (Qo & Qt).
+      assert (T : target o <> Some u).
+      { intros T. apply N. unfold targets. cbn [flat_map]. rewrite T. left. reflexivity. }
+      destruct (step_others _ _ _ _ _ _ Hinv E1 T Hu) as (Hu1 & F1).
+      destruct (IH st1 st' u s (proj1 (step_inv _ _ _ _ Hinv E1)) E) as (Hu2 & F2); [|exact Qt|exact Hu1|].
+      + intros I. apply N. unfold targets in *. cbn [flat_map]. apply in_or_app. right. exact I.
+      + split; [exact Hu2|]. rewrite F2. destruct (sorter o); [discriminate|].
+        clear -F1. induction F1 as [|x y l l' Hxy _ IHF]; [reflexivity|].
+        rewrite IHF, (upto_false_eq _ _ Hxy). reflexivity.
+  Qed.
 End Memory.
+
+(** lists that agree up to the order of the ranges denote the same triples *)
+Lemma upto_den b : forall l l', Forall2 (upto b) l l' -> forall a m k, den l a m k <-> den l' a m k.
+Proof.
+  intros l l' F a m k. induction F as [|x y l l' (A & M & R) _ IH]; [reflexivity|].
+  rewrite !den_cons, IH. unfold hit, ai. rewrite A, M.
+  assert (P : Permutation (rranges x) (rranges y)) by (destruct b; [exact R | rewrite R; reflexivity]).
+  rewrite (in_ranges_perm_iff _ _ k P). reflexivity.
+Qed.
+
+(** ... and, without overflow, have the same normal form of every reference *)
+Lemma upto_length b : forall l l', Forall2 (upto b) l l' -> length l = length l'.
+Proof. intros l l' F. apply (Forall2_len _ _ _ F). Qed.
+
+(** ** Cells outside every slice: spare capacity, cells in front *)
+
+Lemma okw_incl h0 W0 W1 h w : incl W0 W1 -> okw h0 W0 h w -> okw h0 W1 h w.
+Proof. intros I [H | H]; [left; apply I; exact H | right; exact H]. Qed.
+
+Lemma SInv_incl h0 W0 W1 st : incl W0 W1 -> SInv h0 W0 st -> SInv h0 W1 st.
+Proof.
+  intros I [X F Ev Sp]. constructor; try assumption.
+  - unfold fok, hok in *. eapply Forall_impl; [|exact F]. intros l. apply Forall_impl.
+    intros x. apply okw_incl. exact I.
+  - eapply Forall_impl; [|exact Ev]. intros [s | s]; cbn [vok]; [auto | apply okw_incl; exact I].
+Qed.
+
+Lemma perm_single {A} (l l' : list A) d : Permutation l l' -> length l = 1%nat -> hd d l = hd d l'.
+Proof.
+  intros P L. destruct l as [|x [|y t]]; try discriminate.
+  apply Permutation_length_1_inv in P. subst. reflexivity.
+Qed.
+
+(** A cell of the caller's range arrays that lies in no range slice is not
+    written by any operation. *)
+Theorem step_cell h0 W0 st o st' r a i :
+  Wok h0 W0 -> SInv h0 W0 st -> step st o = Some (st', r) ->
+  (i < length (nth a h0 []))%nat -> (forall w, In w W0 -> sep (mkSl a i 1) w) ->
+  nth i (nth a (m_r (st_m st')) []) (mkR 0 0) = nth i (nth a (m_r (st_m st)) []) (mkR 0 0).
+Proof.
+  intros WF Hinv E Li Hs. set (c := mkSl a i 1).
+  assert (WF' : Wok h0 (c :: W0)).
+  { destruct WF as (B & D). split.
+    - constructor; [unfold inb, c; cbn; lia | exact B].
+    - intros w w' [<- | I] [<- | I'].
+      + left. repeat split.
+      + right. apply Hs. exact I'.
+      + right. apply sep_sym, Hs. exact I.
+      + apply D; assumption. }
+  pose proof (SInv_incl h0 W0 (c :: W0) st (incl_tl c (incl_refl W0)) Hinv) as Hinv'.
+  destruct (step_inv h0 (c :: W0) WF' _ _ _ _ Hinv' E) as (_ & [(X & P) _ _ _ _]).
+  specialize (P c (or_introl (in_eq c W0))).
+  destruct Hinv as [X0 _ _ _].
+  assert (L : length (rd (m_r (st_m st)) c) = 1%nat).
+  { apply rd_length. apply (inb_ext h0); [exact X0 | unfold inb, c; cbn; lia]. }
+  rewrite (nth_as_rd (nth a (m_r (st_m st')) []) (mkR 0 0) i), (nth_as_rd (nth a (m_r (st_m st)) []) (mkR 0 0) i).
+  symmetry. apply (perm_single _ _ (mkR 0 0) P L).
+Qed.
+
+Theorem run_cell h0 W0 a i :
+  Wok h0 W0 -> (i < length (nth a h0 []))%nat -> (forall w, In w W0 -> sep (mkSl a i 1) w) ->
+  forall ops st st', SInv h0 W0 st -> run st ops = Some st' ->
+  nth i (nth a (m_r (st_m st')) []) (mkR 0 0) = nth i (nth a (m_r (st_m st)) []) (mkR 0 0).
+Proof.
+  intros WF Li Hs. induction ops as [|o t IH]; intros st st' Hinv E; cbn [run] in E.
+  - inversion E; subst. reflexivity.
+  - destruct (step st o) as [[st1 r]|] eqn:E1; [|discriminate].
+    rewrite (IH st1 st' (proj1 (step_inv h0 W0 WF _ _ _ _ Hinv E1)) E).
+    eapply step_cell; eassumption.
+Qed.
+
+(** A [Reference] struct that lies in no variable -- spare capacity of a list,
+    cells in front of it -- is not written by an operation: the same artifact,
+    mapper and slice header. *)
+Theorem step_ref_cells h0 W0 st o st' r fw :
+  Wok h0 W0 -> SInv h0 W0 st -> step st o = Some (st', r) ->
+  inb (m_f (st_m st)) fw -> (forall v s, nth_error (st_env st) v = Some (VRefs s) -> sep fw s) ->
+  rd (m_f (st_m st')) fw = rd (m_f (st_m st)) fw.
+Proof.
+  intros WF Hinv E I Hs. destruct (step_inv h0 W0 WF _ _ _ _ Hinv E) as (_ & [_ _ _ Fr _]).
+  apply Fr; [exact I|]. intros v s _ G. apply get_refs_nth in G. eapply Hs. exact G.
+Qed.
+
+(** ** The hypotheses are satisfiable: the memory of a hand-written program *)
+
+Definition ex_img := mkArt 1 1 false [1; 2; 3; 4; 5; 6; 7; 8; 9; 10; 11; 12].
+Definition ex_rawA := mkArt 2 2 true [21; 22; 23; 24; 25; 26].
+Definition ex_rawB := mkArt 3 2 true [31; 32; 33; 34].
+Definition ex_h0 : rheap :=
+  [ [mkR 4 2; mkR 0 2; mkR 912080 1]; [mkR 0 6]; [mkR 8 2; mkR 6 2; mkR 1 2; mkR 912081 2] ].
+Definition ex_W0 : list sl := [mkSl 0 0 2; mkSl 1 0 1; mkSl 2 0 2; mkSl 2 2 1].
+Definition ex_st : state :=
+  mkSt (mkMem ex_h0
+          [ [mkHdr ex_rawB MNil (mkSl 2 2 1); mkHdr ex_img MNil (mkSl 0 0 2); mkHdr ex_rawA MNil (mkSl 1 0 1);
+             mkHdr ex_img MNil (mkSl 2 0 2); mkHdr ex_rawB MNil (mkSl 2 2 1); mkHdr ex_rawA MNil (mkSl 1 0 1)];
+            [mkHdr ex_img MNil (mkSl 0 0 2); mkHdr ex_rawB MNil (mkSl 2 2 1)] ])
+       [VRefs (mkSl 0 1 4); VRefs (mkSl 1 0 2)].
+
+Lemma ex_Wok : Wok ex_h0 ex_W0.
+Proof.
+  split.
+  - unfold ex_W0. repeat (apply Forall_cons; [unfold inb; cbn; lia|]). apply Forall_nil.
+  - intros w w' I I'. unfold ex_W0 in I, I'. cbn [In] in I, I'.
+    destruct I as [<- | [<- | [<- | [<- | []]]]]; destruct I' as [<- | [<- | [<- | [<- | []]]]];
+      first [left; repeat split; reflexivity | right; unfold sep; cbn [sl_arr sl_off sl_len]; lia].
+Qed.
+
+Lemma ex_SInv : SInv ex_h0 ex_W0 ex_st.
+Proof.
+  constructor; cbn [ex_st st_m st_env m_r m_f].
+  - apply ext_refl.
+  - unfold fok, hok. repeat (apply Forall_cons; [repeat (apply Forall_cons; [left; cbn [hd_rs ex_W0 In]; tauto|]); apply Forall_nil|]). apply Forall_nil.
+  - repeat (apply Forall_cons; [unfold vok, inb; cbn; lia|]). apply Forall_nil.
+  - intros i j s t Ne Hi Hj.
+    destruct i as [|[|i]]; destruct j as [|[|j]]; cbn in Hi, Hj; try lia; try discriminate;
+      try (destruct i; discriminate); try (destruct j; discriminate);
+      inversion Hi; inversion Hj; subst; left; cbn; lia.
+Qed.
+
+Definition ex_ops : list op :=
+  [OBy 0 ex_rawA; OBy 0 ex_img; ORawBytes 0; OCopy 0; OSortMerge 4; OExclude 0 1; ORanges 0; ORngSM 6].
+
+Lemma ex_runs : exists st', run ex_st ex_ops = Some st'.
+Proof. vm_compute. eexists. reflexivity. Qed.
+
+(** ** The queries against the value-level model (Model/Refs.v) *)
+
+Lemma map_hval_filter h a : forall l,
+  map (hval h) (filter (fun y => art_eqb (hd_art y) a) l) = by_artifact (map (hval h) l) a.
+Proof.
+  unfold by_artifact. induction l as [|y t IH]; [reflexivity|]. cbn [filter map].
+  change (rart (hval h y)) with (hd_art y). destruct (art_eqb (hd_art y) a); cbn [map]; rewrite IH; reflexivity.
+Qed.
+
+(** [BySystemArtifact] yields a new variable holding the value-level filter of
+    what the receiver holds *)
+Theorem step_by_value st v a st' r s :
+  step st (OBy v a) = Some (st', r) -> get_refs st v = Some s ->
+  exists x, st_env st' = st_env st ++ [VRefs x] /\ lval (st_m st') x = by_artifact (lval (st_m st) s) a.
+Proof.
+  intros E G. unfold step in E. rewrite G in E. unfold alloc in E. inversion E; subst. clear E.
+  eexists. split; [reflexivity|]. unfold lval. cbn [push st_m m_r m_f].
+  rewrite rd_alloc_new. apply map_hval_filter.
+Qed.
+
+Lemma flat_map_hval h : forall l, flat_map (fun y => rd h (hd_rs y)) l = refs_ranges (map (hval h) l).
+Proof. unfold refs_ranges. induction l as [|y t IH]; [reflexivity|]. cbn [flat_map map]. rewrite IH. reflexivity. Qed.
+
+(** [Ranges] yields a new variable holding the concatenation *)
+Theorem step_ranges_value st v st' r s :
+  step st (ORanges v) = Some (st', r) -> get_refs st v = Some s ->
+  exists x, st_env st' = st_env st ++ [VRngs x] /\ rd (m_r (st_m st')) x = refs_ranges (lval (st_m st) s).
+Proof.
+  intros E G. unfold step in E. rewrite G in E. unfold alloc in E. inversion E; subst. clear E.
+  eexists. split; [reflexivity|]. cbn [push st_m m_r m_f].
+  rewrite rd_alloc_new. apply flat_map_hval.
+Qed.
+
+(** [RawBytes] hands back what the value-level model computes from what the
+    receiver holds when every reference is read; sorting a reference's ranges in
+    place does not change its bytes (the model sorts before it reads). *)
+Lemma ranges_sm_sort_off l : ranges_sm (sort_off l) = ranges_sm l.
+Proof.
+  unfold ranges_sm. f_equal.
+  assert (S : forall l', sorted_off l' -> sort_off l' = l').
+  { induction l' as [|x t IH]; [reflexivity|]. intros So. cbn [sort_off fold_right].
+    change (fold_right ins_off [] t) with (sort_off t).
+    destruct t as [|y u]; [reflexivity|]. cbn [sorted_off] in So. destruct So as (Le & So).
+    rewrite IH by exact So. cbn [ins_off]. destruct (roff x <=? roff y) eqn:C; [reflexivity|].
+    apply Z.leb_gt in C. lia. }
+  apply S. apply sort_off_sorted.
+Qed.
+
+Lemma read_ranges_ext r r' : rart r = rart r' -> rmap r = rmap r' ->
+  forall rs tot cur acc, read_ranges r tot rs cur acc = read_ranges r' tot rs cur acc.
+Proof.
+  intros A M. induction rs as [|x t IH]; intros tot cur acc; cbn [read_ranges]; [reflexivity|].
+  rewrite A, M. destruct (resolve1 (rmap r') (zlen (acontent (rart r'))) x); try reflexivity.
+  destruct (read_mapped (rart r') tot a cur acc) as [[c a']| | |]; try reflexivity. apply IH.
+Qed.
+
+(** [Reference.RawBytes] through a pointer to a struct in memory hands back what
+    the value-level model computes from the ranges the struct held before the
+    call (which the call sorts in place). *)
+Theorem ref_rawbytes_h_value h x : inb h (hd_rs x) -> snd (ref_rawbytes_h h x) = ref_rawbytes (hval h x).
+Proof.
+  intros I. unfold ref_rawbytes_h. cbn [snd]. unfold sort_inplace.
+  destruct (sl_len (hd_rs x) <? 2)%nat; [reflexivity|].
+  unfold ref_rawbytes. cbn [hval rranges].
+  rewrite rd_wr_same; [| exact I | | repeat split].
+  - rewrite ranges_sm_sort_off. apply read_ranges_ext; reflexivity.
+  - rewrite (Permutation_length (sort_off_perm _)). apply rd_length. exact I.
+Qed.
